@@ -131,3 +131,16 @@ def sweep(alg_spec: dict, ds, sc, one, visit, cap: int = 300, spy_nested: bool =
         if j < 0 or leaves >= cap:
             return leaves
         prefix = [t[2] for t in tr[:j]] + [tr[j][2] + 1]
+
+
+def apply_mutation(ds, mut: dict) -> None:
+    """Edit the Dataset in place (refusals are swallowed: C16 judges the mutators themselves)."""
+    from ..lib import canon_rankings
+    univ = model.universe(canon_rankings(ds.rankings))
+    if mut["mutate"] == "remove_elements":
+        if len(univ) > 2:
+            call(ds.remove_elements, {Element(univ[mut["pick"][0] % len(univ)])})
+    elif mut["mutate"] == "remove_rate":
+        call(ds.remove_elements_rate_presence_lower_than, mut["rate"])
+    else:
+        call(ds.remove_empty_rankings)
